@@ -106,7 +106,7 @@ def compare_case(cfg, req, impl_line, model_line):
             elif name not in S and cfg.get('require_spec_fields', True):
                 res['model'].append({'field': name, 'impl': iv[:200], 'model': '(specification prints no such field)'})
         if matches(name, cfg.get('model_fields', [])):
-            if name in M and not field_equal(name, iv, M[name], False):
+            if name in M and M[name] != 'nomodel' and not field_equal(name, iv, M[name], False):
                 res['model'].append({'field': name, 'impl': iv[:600], 'model': M[name][:600]})
             elif name not in M:
                 res['model'].append({'field': name, 'impl': iv[:200], 'model': '(model prints no such field)'})
@@ -124,6 +124,9 @@ def compare_case(cfg, req, impl_line, model_line):
         name, want = chk
         if name in I and I[name] != want:
             res['impl'].append({'field': name, 'impl': I[name][:300], 'expected': want})
+    cu = cfg.get('custom')
+    if cu:
+        res['spec'] += cu(req, I)
     nt = cfg.get('nontrivial')
     res['nontrivial'] = bool(nt(req, I)) if nt else True
     h = cfg.get('hist')
